@@ -268,7 +268,7 @@ func ruleC19(prog *Program, rep *Report) {
 	if skips < 2 {
 		rep.Errorf("F-ignore found %d skipping loops (floor 2)", skips)
 	}
-	ruleDirectConversion(prog, rep)
+	ruleDirectConversion(prog, rep, "alt", 15)
 	ruleMatchNoLen(prog, rep)
 	ruleOkDrop(prog, rep, "alt")
 	ruleOperandOrder(prog, rep, "alt")
@@ -287,9 +287,13 @@ func isLenCall(e ast.Expr) bool {
 
 // ruleDirectConversion: in the numeric widening helpers every arm converts the
 // matched value directly to the result type.
-func ruleDirectConversion(prog *Program, rep *Report) {
-	rep.Rules = append(rep.Rules, "F-conv: in every type-switch arm of package alt that assigns T(x) of the arm's bound variable, x is converted directly: no inner conversion to an integer type that is narrower than, or of different signedness from, the matched type (which would wrap large values)")
-	pk := prog.Pkg("alt")
+func ruleDirectConversion(prog *Program, rep *Report, rel string, floor int) {
+	rep.Rules = append(rep.Rules, "F-conv: in every type-switch arm of package "+rel+" that assigns T(x) of the arm's bound variable, x is converted directly: no inner conversion to an integer type that is narrower than, or of different signedness from, the matched type (which would wrap large values)")
+	pk := prog.Pkg(rel)
+	if pk == nil {
+		rep.Errorf("F-conv: package %s not loaded", rel)
+		return
+	}
 	info := pk.TypesInfo
 	n := 0
 	for _, f := range pk.Syntax {
@@ -326,7 +330,7 @@ func ruleDirectConversion(prog *Program, rep *Report) {
 							continue
 						}
 						n++
-						key := fmt.Sprintf("alt.%s:conv:%s", funcKey(fd), types.TypeString(bound.Type(), nil))
+						key := fmt.Sprintf(rel+".%s:conv:%s", funcKey(fd), types.TypeString(bound.Type(), nil))
 						bad := ""
 						arg := ast.Unparen(outer.Args[0])
 						for {
@@ -365,8 +369,8 @@ func ruleDirectConversion(prog *Program, rep *Report) {
 			})
 		}
 	}
-	if n < 15 {
-		rep.Errorf("F-conv found %d integer conversion arms (floor 15)", n)
+	if n < floor {
+		rep.Errorf("F-conv found %d integer conversion arms in %s (floor %d)", n, rel, floor)
 	}
 }
 
